@@ -51,5 +51,9 @@ CHECKS = {
     text='Trace monitors with a shadow variable (altitude most recently supplied): 2-D integrator histories with large vertical specific force and non-zero supplied VD (every returned row VD == 0 and alt == alt_ref bitwise, plus all C02 monitors), and real 2-D runs of both filters on seeded schedules (alt_ref follows the recorded set_pva events; down/VD standard deviations exactly zero; position / NED-velocity models return two rows).',
     ref='2/C13', technique='trace monitor with shadow state over call histories and filter runs',
     note='Zero means == 0.0; altitude equality bitwise.'),
+ 'C19': dict(
+    text='Purity sanitizer (deep argument snapshots before/after, second run on read-only ndarray copies), determinism replayer (equal inputs and integer seeds -> bit-identical; different seeds differ; second run with the same model objects), value agreement across argument forms (ndarray / read-only / list / tuple / Fortran-ordered / DataFrame, single vs stacked) and schema predicates, directed at a registry of call specifications covering every public callable enumerated at run time from the module docstrings (a callable without a specification makes the run inconclusive) and ambient on every public callable during filter schedules, integrator histories, simulation chains (and the repository test-suite in the thorough tier).',
+    ref='2/C19', technique='purity sanitizer + determinism replayer over a registry of all public callables, directed and ambient',
+    note='Documented exception: transform/bias of EstimationModel objects handed to a filter; Turntable.generate_imu excluded (fails at baseline).'),
 }
 PENDING = {}
